@@ -287,6 +287,13 @@ def main():
     herr = build_harness(which)
     if herr:
         log(herr)
+    # individual suites may use the other harness (e.g. the C-ABI parts of C16)
+    for s_ in cfg["suites"]:
+        w = s_.get("harness")
+        if w and w != which and not herr:
+            herr = build_harness(w)
+            if herr:
+                log(herr)
 
     known = known_findings()
     seen_known = {}
@@ -315,7 +322,7 @@ def main():
             if not cases:
                 continue
             jobs = s.get("jobs", 1)
-            impl, model, spec = run_cases(cases, which, jobs)
+            impl, model, spec = run_cases(cases, s.get("harness", which), jobs)
             evaluations += len(cases)
             for c, i, m, sp in zip(cases, impl, model, spec):
                 for k in cfg["classify"](c, i):
@@ -324,7 +331,8 @@ def main():
                     nontrivial.add(c)
                     if len(samples) < 4 and len(c) < 400:
                         samples.append({"case": c, "impl": i[:400], "model": m[:400]})
-                bad_spec = i != sp and not cfg.get("spec_na", lambda c: False)(c)
+                # the model / specification may admit several outputs (scheduler choices), joined by " || "
+                bad_spec = i not in sp.split(" || ") and not cfg.get("spec_na", lambda c: False)(c)
                 # independent oracle on the implementation's own output (python re-statement)
                 extra = cfg.get("extra_oracle")
                 if extra is not None and not bad_spec:
@@ -332,7 +340,7 @@ def main():
                     if why:
                         bad_spec = True
                         sp = sp + "  [oracle: " + why + "]"
-                bad_model = i != m
+                bad_model = i not in m.split(" || ")
                 if bad_spec:
                     key = cfg["finding_key"](c, i, sp)
                     if key and (pid, key) in known:
@@ -358,11 +366,13 @@ def main():
         violations = len(oracle_failures)
         suite, c, i, m, sp = min(oracle_failures, key=lambda x: len(x[1]))
 
+        fail_which = next((x.get("harness", which) for x in cfg["suites"] if x.get("gen") == suite), which)
+
         def still_fails(case):
-            a, _, b = run_cases([case], which)
-            return a[0] != b[0]
+            a, _, b = run_cases([case], fail_which)
+            return a[0] not in b[0].split(" || ")
         small = shrink(c, still_fails)
-        a, mo, b = run_cases([small], which)
+        a, mo, b = run_cases([small], fail_which)
         replay_path = os.path.join(VERIF, "replays", f"{pid}-{int(time.time())}.json")
         json.dump({"property": pid, "kind": "implementation contradicts specification",
                    "suite": suite, "cases": [small], "implementation": a[0], "model": mo[0],
